@@ -67,6 +67,51 @@ func wholeLineComments(text string) []string {
 	return out
 }
 
+// addedLinesAreScalarContent: the comment lines in c2 but not in c1 (as multisets) all occur as whole lines of some
+// string value of the parsed view.
+func addedLinesAreScalarContent(c1, c2 []string, view map[string]interface{}) bool {
+	have := map[string]int{}
+	for _, l := range c1 {
+		have[l]++
+	}
+	var added []string
+	for _, l := range c2 {
+		if have[l] > 0 {
+			have[l]--
+			continue
+		}
+		added = append(added, strings.TrimSpace(l))
+	}
+	if len(added) == 0 {
+		return false
+	}
+	lines := map[string]bool{}
+	var walk func(v interface{})
+	walk = func(v interface{}) {
+		switch x := v.(type) {
+		case string:
+			for _, l := range strings.Split(x, "\n") {
+				lines[strings.TrimSpace(l)] = true
+			}
+		case map[string]interface{}:
+			for _, e := range x {
+				walk(e)
+			}
+		case []interface{}:
+			for _, e := range x {
+				walk(e)
+			}
+		}
+	}
+	walk(view)
+	for _, l := range added {
+		if !lines[l] {
+			return false
+		}
+	}
+	return true
+}
+
 func viewOfFS(fs filesys.FileSystem) (map[string]interface{}, string, error) {
 	b, _ := fs.ReadFile("/kustomization.yaml")
 	k, err := editParse(b)
@@ -169,7 +214,10 @@ func init() {
 						// (blank lines inside a block scalar are re-emitted as "comment" lines too: the file grows by one blank
 						// line per edit; that is a byte-level blemish only and is not counted)
 						class := "set-not-idempotent"
-						if strings.Contains(text, "# inside") {
+						if strings.Contains(text, "# inside") || addedLinesAreScalarContent(c1, c2, v2) {
+							// recogniser of C17-K2: every comment line the repetition added is a line of a block scalar's CONTENT
+							// (written there by the user, or absorbed earlier through C17-K1): the line-based comment pass
+							// re-emits it as a comment as well, once more per edit
 							class = "block-scalar-comment-duplicated"
 						}
 						o.fail(class, "repeating a set command adds comment lines", cs, in, firstDiff(text, text2), nil)
